@@ -193,19 +193,23 @@ def check(case, rec):
                                                         ref.ids(inv)))
         n_inv = len(ref.ids(inv))
         exp = {b: [0.0] * n_inv for b in bins}
+        mag = {b: [0.0] * n_inv for b in bins}   # sum of |contributions|
         for k, i in enumerate(ids):
             v = ref.vec(axis, k)
             ps = allp[i]
             for _, b in ps:
                 for q in range(n_inv):
-                    exp[b][q] += v[q] if case["mode"] == "add" else \
-                        v[q] / len(ps)
+                    c = v[q] if case["mode"] == "add" else v[q] / len(ps)
+                    exp[b][q] += c
+                    mag[b][q] += abs(c)
         for pos, b in enumerate(got[akey]):
             have = [row[pos] for row in got["rows"]] if axis == "sample" \
                 else got["rows"][pos]
+            # 'divide' adds non-dyadic quotients in an unspecified order:
+            # compare within rounding noise of the summands' magnitude
             ok = all((a == w) if case["mode"] == "add" else
-                     math.isclose(a, w, rel_tol=1e-9, abs_tol=1e-12)
-                     for a, w in zip(have, exp[b]))
+                     abs(a - w) <= 1e-12 * max(mg, 1e-300)
+                     for a, w, mg in zip(have, exp[b], mag[b]))
             if not ok:
                 bad("one-to-many-values", "bin %r holds %r, expected %r" %
                     (b, have, exp[b]))
@@ -215,8 +219,9 @@ def check(case, rec):
             tot_have = [sum(exp[b][q] for b in bins) for q in range(n_inv)]
             tot_src = [sum(ref.vec(axis, k)[q] for k, i in enumerate(ids)
                            if allp[i]) for q in range(n_inv)]
-            for a, w in zip(tot_have, tot_src):
-                if not math.isclose(a, w, rel_tol=1e-9, abs_tol=1e-9):
+            tot_mag = [sum(mag[b][q] for b in bins) for q in range(n_inv)]
+            for a, w, mg in zip(tot_have, tot_src, tot_mag):
+                if abs(a - w) > 1e-12 * max(mg, 1e-300):
                     bad("one-to-many-totals", "divide does not conserve "
                         "totals: %r vs %r" % (tot_have, tot_src))
         if case["include_md"]:
